@@ -50,7 +50,11 @@ class Ctx:
 
     # volume helper: n for quick, n*k for thorough or when escalated
     def vol(self, n, k=20):
-        return n * k if (self.tier == 'thorough' or self.escalate) else n
+        if self.tier == 'thorough':
+            return n * k
+        if self.escalate:
+            return n * min(k, 4)      # quick tier, but the tie or a fingerprint changed: search harder
+        return n
 
     def count(self, key, n=1):
         self.counters[key] = self.counters.get(key, 0) + n
